@@ -32,6 +32,7 @@ import (
 	"github.com/google/mtail/internal/metrics"
 	"github.com/google/mtail/internal/metrics/datum"
 	mrt "github.com/google/mtail/internal/runtime"
+	"github.com/google/mtail/internal/runtime/code"
 	"github.com/google/mtail/internal/runtime/vm"
 	"github.com/google/mtail/verif/ev"
 	"github.com/prometheus/common/expfmt"
@@ -64,6 +65,48 @@ counter c3
 }
 `
 
+// prog4: data whose expiry clock is driven by the line (settime), so that the
+// harness decides when a datum is collectable: stamped 1970 it is expired at
+// once, stamped ten hours ahead it is not collectable for the whole run.
+const prog4 = `counter exp by k
+/^X (\w+) (\d+)$/ {
+  settime($2)
+  exp[$1]++
+  del exp[$1] after 1h
+}
+`
+
+// expWatch lets the VM line hook look at the store at the end of each
+// future-stamped write of an expiry key (in the VM's own goroutine).
+type expWatch struct {
+	store  *metrics.Store
+	prog   string
+	future string
+	mu     sync.Mutex
+	atEnd  map[string]bool // key -> datum present when the refreshing line finished
+}
+
+var watch atomic.Pointer[expWatch]
+
+func (w *expWatch) lineDone(name string, l *logline.LogLine) {
+	if name != w.prog || !strings.HasPrefix(l.Line, "X ") {
+		return
+	}
+	f := strings.Fields(l.Line)
+	if len(f) != 3 || f[2] != w.future {
+		return
+	}
+	present := false
+	if m := w.store.FindMetricOrNil("exp", w.prog); m != nil {
+		m.RLock()
+		present = m.FindLabelValueOrNil([]string{f[1]}) != nil
+		m.RUnlock()
+	}
+	w.mu.Lock()
+	w.atEnd[f[1]] = present
+	w.mu.Unlock()
+}
+
 var inProgress atomic.Int64 // VM lines currently executing
 var perturb atomic.Uint64
 
@@ -92,12 +135,14 @@ type scrapeSample struct {
 }
 
 type runResult struct {
-	what     string
-	scrapes  int
-	overlaps int
-	gcs      int
-	gcOver   int
-	reloads  int
+	what                     string
+	scrapes                  int
+	overlaps                 int
+	gcs                      int
+	gcOver                   int
+	reloads                  int
+	expChecked, expCollected int
+	orphaned                 []string
 }
 
 func oneRun(t *testing.T, r *ev.Run, g *ev.RNG, run int, withReload bool) runResult {
@@ -111,8 +156,8 @@ func oneRun(t *testing.T, r *ev.Run, g *ev.RNG, run int, withReload bool) runRes
 	if err != nil {
 		t.Fatal(err)
 	}
-	names := []string{fmt.Sprintf("c11_%d_a.mtail", run), fmt.Sprintf("c11_%d_b.mtail", run), fmt.Sprintf("c11_%d_c.mtail", run)}
-	srcs := []string{prog1, prog2, prog3}
+	names := []string{fmt.Sprintf("c11_%d_a.mtail", run), fmt.Sprintf("c11_%d_b.mtail", run), fmt.Sprintf("c11_%d_c.mtail", run), fmt.Sprintf("c11_%d_d.mtail", run)}
+	srcs := []string{prog1, prog2, prog3, prog4}
 	for i := range names {
 		if err := rt.CompileAndRun(names[i], strings.NewReader(srcs[i])); err != nil {
 			t.Fatal(err)
@@ -135,6 +180,7 @@ func oneRun(t *testing.T, r *ev.Run, g *ev.RNG, run int, withReload bool) runRes
 	var samples []scrapeSample
 	wordCount := map[string]int64{}
 	written := map[int64]bool{}
+	var expKeys []string
 	// exporters
 	exportLoop := func(path string, f func() []byte, parse func([]byte, *scrapeSample) string) {
 		bg.Add(1)
@@ -230,7 +276,9 @@ func oneRun(t *testing.T, r *ev.Run, g *ev.RNG, run int, withReload bool) runRes
 		}
 		return ""
 	})
-	lineRe := func(name string) *regexp.Regexp { return regexp.MustCompile(`(?m)^` + name + `[{ .][^\n]* (-?\d+)( \d+)?$`) }
+	lineRe := func(name string) *regexp.Regexp {
+		return regexp.MustCompile(`(?m)^` + name + `[{ .][^\n]* (-?\d+)( \d+)?$`)
+	}
 	varzLines, varzLast := regexp.MustCompile(`(?m)^lines_total\{[^}]*\} (\d+)$`), regexp.MustCompile(`(?m)^last\{[^}]*\} (\d+)$`)
 	_ = lineRe
 	exportLoop("varz", func() []byte {
@@ -316,12 +364,45 @@ func oneRun(t *testing.T, r *ev.Run, g *ev.RNG, run int, withReload bool) runRes
 		}()
 	}
 	// feed
+	// New label sets keep appearing for the whole run (a reload or GC pass that
+	// overlaps the first write of a label set is part of the schedule space),
+	// and every eighth line starts an expiry pair: key e<i> is written stamped
+	// 1970 (collectable at once) and, a few lines later, stamped ten hours
+	// ahead (not collectable any more).
+	future := time.Now().Add(10 * time.Hour).Unix()
+	w := &expWatch{store: store, prog: names[3], future: fmt.Sprint(future), atEnd: map[string]bool{}}
+	watch.Store(w)
+	defer watch.Store(nil)
+	type pend struct {
+		key string
+		at  int
+	}
+	var pending []pend
 	for i := 0; i < nlines; i++ {
-		w := words[g.Intn(len(words))]
+		var w string
+		if i%25 == 0 {
+			w = fmt.Sprintf("w%d", i)
+			words = append(words, w)
+		} else {
+			w = words[g.Intn(len(words))]
+		}
 		v := int64(i + 1)
 		wordCount[w]++
 		written[v] = true
 		in <- logline.New(nil, "log", fmt.Sprintf("%s %d", w, v))
+		if i%8 == 0 {
+			k := fmt.Sprintf("e%d", i)
+			in <- logline.New(nil, "log", fmt.Sprintf("X %s %d", k, 1000000))
+			pending = append(pending, pend{k, i + g.Intn(3)})
+			expKeys = append(expKeys, k)
+		}
+		for len(pending) > 0 && pending[0].at <= i {
+			in <- logline.New(nil, "log", fmt.Sprintf("X %s %d", pending[0].key, future))
+			pending = pending[1:]
+		}
+	}
+	for _, p := range pending {
+		in <- logline.New(nil, "log", fmt.Sprintf("X %s %d", p.key, future))
 	}
 	in <- logline.New(nil, "log", "barrier")
 	in <- logline.New(nil, "log", "barrier")
@@ -362,6 +443,30 @@ func oneRun(t *testing.T, r *ev.Run, g *ev.RNG, run int, withReload bool) runRes
 			res.what = fmt.Sprintf("conservation: c3=%d (present=%v) want %d", v, ok, 2*nlines)
 		}
 	}
+	// (2b) a datum refreshed with a current timestamp is not collectable: each
+	// expiry key was last written stamped in the future, so it must be there,
+	// holding 2 (never collected) or 1 (collected while it was stamped 1970).
+	if res.what == "" {
+		for _, k := range expKeys {
+			if v, ok := get("exp", names[3], k); !ok || v < 1 || v > 2 {
+				w.mu.Lock()
+				atEnd, seen := w.atEnd[k]
+				w.mu.Unlock()
+				if seen && !atEnd {
+					// already gone when the refreshing line finished: collected
+					// between that line's datum lookup and its write (C11-e)
+					res.orphaned = append(res.orphaned, k)
+					continue
+				}
+				res.what = fmt.Sprintf("gc-of-live-datum: exp[%s]=%d (present=%v) although it was there, stamped ten hours ahead with expiry 1h, when the line that last wrote it finished (hook saw it: %v)", k, v, ok, seen)
+				break
+			}
+			res.expChecked++
+			if v, _ := get("exp", names[3], k); v == 1 {
+				res.expCollected++
+			}
+		}
+	}
 	// (3) scrape log
 	lastSeen := map[string]int64{}
 	for _, s := range samples {
@@ -389,6 +494,145 @@ func oneRun(t *testing.T, r *ev.Run, g *ev.RNG, run int, withReload bool) runRes
 		}
 	}
 	return res
+}
+
+// ---- sub-workload C: reloads while lines create new label sets -------------
+//
+// Every line is the first write of its label set, the VM line hook stalls a
+// share of the lines right after they were taken off the VM's queue, and a
+// reloader swaps the program (comment-only edits) as fast as it can, so many
+// reloads happen with a line in flight whose datum does not exist yet.
+// Oracle: conservation — every key ends with exactly the one increment.
+const prog5 = `counter fresh by k
+counter fresh_total
+/^N (\w+)$/ {
+  fresh[$1]++
+  fresh_total++
+}
+`
+
+var stallLines atomic.Bool
+
+func reloadNewLabels(t *testing.T, r *ev.Run, g *ev.RNG, run int) (what string, reloads, inflight int) {
+	store := metrics.NewStore()
+	in := make(chan *logline.LogLine)
+	var wg sync.WaitGroup
+	rt, err := mrt.New(in, &wg, "", store)
+	if err != nil {
+		t.Fatal(err)
+	}
+	name := fmt.Sprintf("c11_fresh_%d.mtail", run)
+	if err := rt.CompileAndRun(name, strings.NewReader(prog5)); err != nil {
+		t.Fatal(err)
+	}
+	defer mrt.ProgLoads.Delete(name)
+	defer vm.ProgRuntimeErrors.Delete(name)
+	stallLines.Store(true)
+	defer stallLines.Store(false)
+	stop := make(chan struct{})
+	var bg sync.WaitGroup
+	var nre, nin atomic.Int64
+	bg.Add(1)
+	go func() {
+		defer bg.Done()
+		for n := 1; ; n++ {
+			select {
+			case <-stop:
+				return
+			default:
+			}
+			if inProgress.Load() > 0 {
+				nin.Add(1)
+			}
+			_ = rt.CompileAndRun(name, strings.NewReader(prog5+fmt.Sprintf("# edit %d\n", n)))
+			nre.Add(1)
+			jitter()
+		}
+	}()
+	nlines := g.Range(ev.Pick(400, 800), ev.Pick(900, 2500))
+	for i := 0; i < nlines; i++ {
+		in <- logline.New(nil, "log", fmt.Sprintf("N k%d", i))
+	}
+	in <- logline.New(nil, "log", "barrier")
+	in <- logline.New(nil, "log", "barrier")
+	close(stop)
+	bg.Wait()
+	close(in)
+	wg.Wait()
+	m := store.FindMetricOrNil("fresh", name)
+	if m == nil {
+		return "conservation: metric fresh is gone after the reloads", int(nre.Load()), int(nin.Load())
+	}
+	m.RLock()
+	defer m.RUnlock()
+	for i := 0; i < nlines; i++ {
+		k := fmt.Sprintf("k%d", i)
+		lv := m.FindLabelValueOrNil([]string{k})
+		if lv == nil || datum.GetInt(lv.Value) != 1 {
+			v := int64(-1)
+			if lv != nil {
+				v = datum.GetInt(lv.Value)
+			}
+			return fmt.Sprintf("conservation: fresh[%s]=%d (-1: absent) after its one increment; %d reloads, %d of them begun with a line in flight", k, v, nre.Load(), nin.Load()), int(nre.Load()), int(nin.Load())
+		}
+	}
+	return "", int(nre.Load()), int(nin.Load())
+}
+
+// ---- forced schedule: a GC pass between a line's datum lookup and its write --
+//
+// One deterministic schedule out of the space the stress runs sample: key k is
+// written stamped 1970 (collectable), then a second line writes it stamped ten
+// hours ahead; the instruction hook runs Store.Gc in the VM's goroutine right
+// before that line's inc, i.e. after its dload fetched the datum. In every
+// sequential order of {GC pass, second line} the key ends present (1 or 2).
+func forcedGcBetweenLookupAndWrite(t *testing.T, r *ev.Run) {
+	store := metrics.NewStore()
+	in := make(chan *logline.LogLine)
+	var wg sync.WaitGroup
+	rt, err := mrt.New(in, &wg, "", store)
+	if err != nil {
+		t.Fatal(err)
+	}
+	const name = "c11_forced.mtail"
+	if err := rt.CompileAndRun(name, strings.NewReader(prog4)); err != nil {
+		t.Fatal(err)
+	}
+	defer mrt.ProgLoads.Delete(name)
+	defer vm.ProgRuntimeErrors.Delete(name)
+	var armed atomic.Bool
+	ih := func(i *vm.VerifInstr) {
+		if i.VMName == name && i.Instr.Opcode == code.Inc && armed.CompareAndSwap(true, false) {
+			_ = store.Gc()
+		}
+	}
+	vm.VerifInstrHook.Store(&ih)
+	defer vm.VerifInstrHook.Store(nil)
+	future := time.Now().Add(10 * time.Hour).Unix()
+	in <- logline.New(nil, "log", "X k 1000000")
+	in <- logline.New(nil, "log", "barrier")
+	in <- logline.New(nil, "log", "barrier")
+	armed.Store(true)
+	in <- logline.New(nil, "log", fmt.Sprintf("X k %d", future))
+	close(in)
+	wg.Wait()
+	present, v := false, int64(0)
+	if m := store.FindMetricOrNil("exp", name); m != nil {
+		m.RLock()
+		if lv := m.FindLabelValueOrNil([]string{"k"}); lv != nil {
+			present, v = true, datum.GetInt(lv.Value)
+		}
+		m.RUnlock()
+	}
+	r.Eval(1)
+	switch {
+	case armed.Load():
+		r.Inconclusive("forced schedule: the inc instruction of the refreshing line was never reached")
+	case present && (v == 1 || v == 2):
+		r.Count("forced_gc_between_lookup_and_write_held", 1)
+	default:
+		r.Known("C11-e", map[string]any{"schedule": "line 'X k 1000000'; line 'X k <now+10h>' with Store.Gc run between its dload and its inc", "present": present, "value": v, "program": prog4})
+	}
 }
 
 // ---- porcupine: single datum under concurrent clients ----------------------
@@ -532,7 +776,15 @@ func TestC11(t *testing.T) {
 		if phase == 0 {
 			inProgress.Add(1)
 			jitter()
+			if stallLines.Load() {
+				if x := perturb.Add(0x9E3779B97F4A7C15) >> 33; x%3 == 0 {
+					time.Sleep(time.Duration(20+x>>8%100) * time.Microsecond)
+				}
+			}
 		} else {
+			if w := watch.Load(); w != nil {
+				w.lineDone(name, l)
+			}
 			inProgress.Add(-1)
 		}
 	}
@@ -541,16 +793,22 @@ func TestC11(t *testing.T) {
 	runs := ev.Pick(9, 160)
 	rng := ev.NewRNG(ev.Seed(), "c11")
 	defer runtime.GOMAXPROCS(runtime.GOMAXPROCS(0))
-	totOver, totGcOver, totScr, totReload := 0, 0, 0, 0
+	totOver, totGcOver, totScr, totReload, totExp, totExpColl := 0, 0, 0, 0, 0, 0
 	for run := 0; run < runs; run++ {
 		g := rng.Sub(run)
 		runtime.GOMAXPROCS([]int{2, 4, 16}[run%3])
-		res := oneRun(t, r, g, run, run%2 == 1)
+		var res runResult
+		r.Guard(fmt.Sprintf("workload run %d (lines, GC, exports, reloads) and runtime shutdown", run), func() { res = oneRun(t, r, g, run, run%2 == 1) }, "vm.(*VM).Run")
 		r.Eval(1)
 		totOver += res.overlaps
 		totGcOver += res.gcOver
 		totScr += res.scrapes
 		totReload += res.reloads
+		totExp += res.expChecked
+		totExpColl += res.expCollected
+		for _, k := range res.orphaned {
+			r.Known("C11-e", map[string]any{"run": run, "key": k, "what": "exp[" + k + "] absent at the end of the line that wrote it stamped ten hours ahead: a GC pass removed the (then still stale) datum between that line's dload and its inc, the increment went to the orphan"})
+		}
 		if res.what != "" {
 			r.Violation(strings.SplitN(res.what, ":", 2)[0], map[string]any{"run": run, "with_reload": run%2 == 1, "gomaxprocs": []int{2, 4, 16}[run%3], "what": res.what})
 			if r.Violations() > 5 {
@@ -566,7 +824,27 @@ func TestC11(t *testing.T) {
 	r.Count("exports_begun_during_a_vm_line", totOver)
 	r.Count("gc_passes_begun_during_a_vm_line", totGcOver)
 	r.Count("reloads_during_lines", totReload)
+	r.Count("expiry_keys_refreshed_and_checked", totExp)
+	r.Count("expiry_keys_collected_between_stale_and_fresh_write", totExpColl)
+	totC, inflightC := 0, 0
+	for run := 0; run < ev.Pick(6, 60) && r.Violations() == 0; run++ {
+		runtime.GOMAXPROCS([]int{2, 4, 16}[run%3])
+		var what string
+		var nre, nin int
+		r.Guard(fmt.Sprintf("workload C run %d and runtime shutdown", run), func() { what, nre, nin = reloadNewLabels(t, r, rng.Sub(5000+run), run) }, "vm.(*VM).Run")
+		r.Eval(1)
+		totC += nre
+		inflightC += nin
+		if what != "" {
+			r.Violation("conservation", map[string]any{"workload": "C (reloads while lines create new label sets)", "run": run, "what": what, "program": prog5})
+		} else if nin > 0 {
+			r.Distinct(fmt.Sprint("C", run))
+		}
+	}
+	r.Count("workloadC_reloads", totC)
+	r.Count("workloadC_reloads_begun_with_a_line_in_flight", inflightC)
 	runtime.GOMAXPROCS(16)
+	forcedGcBetweenLookupAndWrite(t, r)
 	linearizability(r, rng.Sub(999999), ev.Pick(200, 5000))
 	raw, distinct := raceReports()
 	r.Count("race_reports_raw", raw)
@@ -582,4 +860,5 @@ func TestC11(t *testing.T) {
 	r.Sample(map[string]any{"programs": []string{prog1, prog2, prog3}, "line_format": "<word> <unique number>"})
 	r.Floor("exports_begun_during_a_vm_line", 50)
 	r.Floor("gc_passes_begun_during_a_vm_line", 20)
+	r.Floor("workloadC_reloads_begun_with_a_line_in_flight", 20)
 }
